@@ -31,6 +31,16 @@ theorem c01_constants : Gen.padSize = 32 ∧ Gen.stripLen = 20 ∧
   refine ⟨by decide, by decide, fun n => ?_⟩
   simp [Gen.thresholdRecover, Gen.thresholdDispatch, threshold]
 
+/-- regenerated shape of the code the model mirrors: `recoverSign` recovers with the public
+polynomial on `sign.Content`, verifies the result under the group key `pubPoly.Commit()` on the
+same content, sends ONCE on `out` and returns; `reportQueryResult` calls `UpdateRandomness` for
+system randomness and `DataReturn` otherwise.  (Removing the final `bls.Verify`, which the repaired
+`tbls.Recover` makes unobservable by testing, breaks this obligation.) -/
+theorem c01_stage_shape :
+    Gen.recoverSignSteps = ["tbls.Recover(pubPoly,sign.Content)", "bls.Verify(pubPoly.Commit(),sign.Content)", "send:out", "return"]
+    ∧ Gen.reportSteps = ["if:ok", "if:queryType==onchain.TrafficSystemRandom", "chain.UpdateRandomness", "chain.DataReturn", "if:err!=nil"] := by
+  decide
+
 /-- **1. only the derived submitter reports.**  Whatever reaches a member (any messages, any
 number of valid shares), it reports only if its id is `ids[(lastRand mod 2^64) mod n]`. -/
 theorem only_submitter_reports (C : Crypto) (p a : Nat) (mb : Member) (r : Request)
